@@ -178,3 +178,14 @@ def _allnull_keys(prop, case, f):
     # pandas groupby over >= 2 keys raises IndexError when every key of the chunk is null; fastparquet lets it propagate
     return (f.get("kind") in ("append_raised", "write_raised") and f.get("exc") == "IndexError"
             and f.get("where") == "writer.py:partition_on_columns" and "non-empty take from an empty axes" in f.get("msg", ""))
+
+
+@pred("dataset-emptied-by-removal-forgets-partitioning")
+def _emptied(prop, case, f):
+    # partition columns are derived from the row groups' paths; with no row group left the handle has no partition columns,
+    # so append / overwrite / write_row_groups with the original columns are refused
+    if f.get("kind") != "operation_raised" or f.get("exc") != "ValueError" or f.get("row_groups_before") != 0 or not f.get("nparts"):
+        return False
+    m = f.get("msg", "")
+    return (m.startswith("When appending, partitioning columns must match") or m.startswith("No partitioning column has been set")
+            or m.startswith("Column names of new data are"))
